@@ -1,5 +1,180 @@
-import XlVerif.Base
-/-! Driver for C11 (stub: replaced when the property's model is built). -/
+import XlVerif.Model.C11
+import XlVerif.Spec.C11
+/-!
+  Driver for C11.
+
+  `C11 LOAD <ignore> <sst> <sheets> <names>` →
+  `impl=<model|X:Crash>  spec=<cells#names>  wf=<flags>`
+
+  Texts are dotted decimal code points (`e` = empty text), lists are joined by `|` (`-` = empty list).
+  sheet  = `name;cell;cell…`          cell = `col,row,fform,stored`
+  fform  = `-` | `P~tok~tok…` | `M<si>~tok…` | `S<si>`
+  tok    = `L<text>` | `X<text>` | `C<ac>_<col>_<ar>_<row>`
+  stored = `Z` | `I:<int>` | `F:<n>/<d>` | `DI:<int>` | `DF:<n>/<d>` | `S:<idx>` | `R:<text>` | `L:<text>`
+           | `B:<0|1>` | `E:<text>`
+  name   = `name,hidden,R:<text>` | `name,hidden,T:<sheet>_<quoted>_<ac>_<col>_<ar>_<row>[_<ac>_<col>_<ar>_<row>]`
+-/
 namespace XlVerif.Drv.C11
-def handle (_fields : List String) : String := "error=not-implemented"
+open XlVerif XlVerif.Spec.C11 XlVerif.Model.C11
+
+def decText (s : String) : Option Text :=
+  if s == "e" then some [] else (s.splitOn ".").mapM fun t => (t.toNat?).map Char.ofNat
+
+def encText (s : Text) : String :=
+  if s.isEmpty then "e" else ".".intercalate (s.map fun c => toString c.toNat)
+
+def decList {α} (f : String → Option α) (s : String) : Option (List α) :=
+  if s == "-" then some [] else (s.splitOn "|").mapM f
+
+def decBool : String → Option Bool
+  | "0" => some false | "1" => some true | _ => none
+
+def decTok (s : String) : Option FTok :=
+  if s.startsWith "L" then (decText (s.drop 1).toString).map .lit
+  else if s.startsWith "X" then (decText (s.drop 1).toString).map .pfx
+  else if s.startsWith "C" then
+    match (s.drop 1).toString.splitOn "_" with
+    | [ac, col, ar, row] => do
+        some (.cell (← decBool ac) (← col.toNat?) (← decBool ar) (← row.toNat?))
+    | _ => none
+  else none
+
+def encTok : FTok → String
+  | .lit s => "L" ++ encText s
+  | .pfx s => "X" ++ encText s
+  | .cell ac col ar row => s!"C{if ac then 1 else 0}_{col}_{if ar then 1 else 0}_{row}"
+
+def decFForm (s : String) : Option (Option FForm) :=
+  if s == "-" then some none else
+  match s.splitOn "~" with
+  | [] => none
+  | h :: ts =>
+    if h == "P" then (ts.mapM decTok).map fun l => some (.plain l)
+    else if h.startsWith "M" then do
+      let si ← (h.drop 1).toString.toNat?
+      let l ← ts.mapM decTok
+      some (some (.master si l))
+    else if h.startsWith "S" then do
+      let si ← (h.drop 1).toString.toNat?
+      if ts.isEmpty then some (some (.member si)) else none
+    else none
+
+def decNum (isInt : Bool) (s : String) : Option Num :=
+  if isInt then (parseInt? s).map .int else (parseRat? s).map .flt
+
+def decStored (s : String) : Option Stored :=
+  if s == "Z" then some .empty
+  else if s.startsWith "I:" then (decNum true (s.drop 2).toString).map .n
+  else if s.startsWith "F:" then (decNum false (s.drop 2).toString).map .n
+  else if s.startsWith "DI:" then (decNum true (s.drop 3).toString).map .nDate
+  else if s.startsWith "DF:" then (decNum false (s.drop 3).toString).map .nDate
+  else if s.startsWith "S:" then ((s.drop 2).toString.toNat?).map .s
+  else if s.startsWith "R:" then (decText (s.drop 2).toString).map .str
+  else if s.startsWith "L:" then (decText (s.drop 2).toString).map .inl
+  else if s.startsWith "B:" then (decBool (s.drop 2).toString).map .b
+  else if s.startsWith "E:" then (decText (s.drop 2).toString).map .e
+  else none
+
+def decCell (s : String) : Option SCell :=
+  match s.splitOn "," with
+  | [col, row, ff, st] => do
+      some ⟨⟨← col.toNat?, ← row.toNat?⟩, ← decFForm ff, ← decStored st⟩
+  | _ => none
+
+def decSheet (s : String) : Option Sheet :=
+  match s.splitOn ";" with
+  | [] => none
+  | n :: cs => do some ⟨← decText n, ← cs.mapM decCell⟩
+
+def decTarget (s : String) : Option TargetForm :=
+  if s.startsWith "R:" then (decText (s.drop 2).toString).map .raw
+  else if s.startsWith "T:" then
+    match (s.drop 2).toString.splitOn "_" with
+    | [sh, q, ac, col, ar, row] => do
+        some (.ref ⟨← decText sh, ← decBool q, ← decBool ac, ⟨← col.toNat?, ← row.toNat?⟩, ← decBool ar, none⟩)
+    | [sh, q, ac, col, ar, row, ac2, col2, ar2, row2] => do
+        some (.ref ⟨← decText sh, ← decBool q, ← decBool ac, ⟨← col.toNat?, ← row.toNat?⟩, ← decBool ar,
+          some (← decBool ac2, ⟨← col2.toNat?, ← row2.toNat?⟩, ← decBool ar2)⟩)
+    | _ => none
+  else none
+
+def decName (s : String) : Option DefName :=
+  match s.splitOn "," with
+  | [n, h, t] => do some ⟨← decText n, ← decBool h, ← decTarget t⟩
+  | _ => none
+
+/-! ### output -/
+
+def pyWire : PyVal → String
+  | .none => "Z"
+  | .int z => s!"I:{z}"
+  | .flt q => "F:" ++ ratWire q
+  | .str s => "T:" ++ encText s
+  | .bool b => if b then "B:1" else "B:0"
+  | .date q => "D:" ++ ratWire q
+
+def join (sep : String) (l : List String) : String := sep.intercalate l
+
+def rowsWire (rows : List (List Text)) : String :=
+  join ";" (rows.map fun r => "r" ++ join "~" (r.map encText))
+
+def rangeWire (r : XLRange) : String :=
+  join "," [encText r.addressStr, encText r.name, encText r.sheet, rowsWire r.cells]
+
+def modelWire (m : M) : String :=
+  let cells := m.cells.map fun (k, c) =>
+    join "," [encText k, encText c.address, pyWire c.value,
+      (match c.formula with | some f => encText f.formula ++ ":" ++ encText f.sheetName | none => "-"),
+      (if c.definedNames.isEmpty then "-" else join "~" (c.definedNames.map encText))]
+  let formulae := m.formulae.map fun (k, f) => join "," [encText k, encText f.formula, encText f.sheetName]
+  let names := m.names.map fun (k, d) =>
+    match d with
+    | .cell a => join "," [encText k, "C", encText a]
+    | .range r => join "," [encText k, "R", rangeWire r]
+  let ranges := m.ranges.map fun (k, r) => join "," [encText k, rangeWire r]
+  let gcv := m.cells.map fun (k, _) => join "," [encText k, pyWire (getCellValue m k)]
+  join "#" [join "|" cells, join "|" formulae, join "|" names, join "|" ranges, join "|" gcv]
+
+def implWire : Except Crash M → String
+  | .ok m => modelWire m
+  | .error k => "X:" ++ k.wire
+
+def specWire (wb : Workbook) (ig : List Text) : String :=
+  let cells := (Spec.C11.cells wb ig).map fun c =>
+    join "," [encText c.address, pyWire c.value, (match c.formula with | some f => encText f | none => "-")]
+  let names := (Spec.C11.bindings wb ig).map fun (n, b) =>
+    match b with
+    | .cell a => join "," [encText n, "C", encText a]
+    | .range a rows => join "," [encText n, "R", encText a, rowsWire rows]
+    | .free => join "," [encText n, "U"]
+  join "#" [join "|" cells, join "|" names]
+
+/-- every formula of the workbook is read back by the scanner as the tokens it was written from. -/
+def scanRoundTrip (wb : Workbook) : Bool :=
+  wb.sheets.all fun sh => sh.cells.all fun c =>
+    match c.formula with
+    | some (.plain toks) => scan (renderToks toks) == toks
+    | some (.master _ toks) => scan (renderToks toks) == toks
+    | _ => true
+
+/-- the addresses of the stored cells of the sheets that are not ignored are pairwise different. -/
+def nodupAddresses (wb : Workbook) (ig : List Text) : Bool :=
+  let ks := (cellEntries wb ig).map Prod.fst
+  ks.eraseDups.length == ks.length
+
+def handle (fields : List String) : String :=
+  match fields with
+  | ["LOAD", ig, sst, sheets, names] =>
+    match decList decText ig, decList decText sst, decList decSheet sheets, decList decName names with
+    | some ig, some sst, some sheets, some names =>
+      let wb : Workbook := ⟨sst, sheets, names⟩
+      kv [("impl", implWire (load wb ig)), ("spec", specWire wb ig),
+          ("wf", s!"scan:{if scanRoundTrip wb then 1 else 0},nodup:{if nodupAddresses wb ig then 1 else 0}")]
+    | _, _, _, _ => "error=bad-args"
+  | ["SCAN", t] =>
+    match decText t with
+    | some t => kv [("toks", join "~" ((scan t).map encTok))]
+    | none => "error=bad-args"
+  | _ => "error=bad-request"
+
 end XlVerif.Drv.C11
